@@ -339,6 +339,21 @@ def check_book(ctx, spec, titles, plant, probes, name, far=False):
                 g != e and not (e == {'last_column': 0, 'last_row': 0} and g == {'last_column': 1, 'last_row': 1})
                 for g, e in zip(gs.value, exp_sizes)):
             report(r, ID, None, dict(case0, what='get_sheets_size'), gs.brief(), exp_sizes, monitor='class-sizes')
+    # a SECOND user of the same class object: after an Executor on it was given a cell beyond the stored range of every sheet, a new instance
+    # and a new Executor still report the sizes of the workbook (the tables belong to the workbook, what one user adds is that user's)
+    if book.cls is not None and not far:
+        from excel2pycl import Cell as _Cell
+        first_user = pipeline.guarded(lambda: pipeline.Executor().set_executed_class(class_object=book.cls).set_cells(
+            [_Cell(si_, 30 + si_, 40 + si_, 5) for si_ in range(len(titles))]), 'evaluate')
+        second = pipeline.guarded(lambda: [dict(x) for x in book.cls().get_sheets_size()], 'evaluate')
+        third = pipeline.guarded(lambda: [dict(x) for x in pipeline.Executor().set_executed_class(class_object=book.cls).get_executed_class().get_sheets_size()], 'evaluate')
+        r.ev(2)
+        r.count('second_users_of_a_class_object')
+        for label, got_ in (('a new instance', second), ('a new Executor', third)):
+            if first_user.ok and (not got_.ok or len(got_.value) != len(exp_sizes) or any(
+                    g != e and not (e == {'last_column': 0, 'last_row': 0} and g == {'last_column': 1, 'last_row': 1}) for g, e in zip(got_.value, exp_sizes))):
+                report(r, ID, None, dict(case0, what=f'get_sheets_size of {label} after ANOTHER Executor on the same class object was given cells beyond the stored range'),
+                       got_.brief(), exp_sizes, monitor='class-sizes')
     # the class FILE of this book and of the book before it (same file name, directories of their own): written one after the other,
     # then the newer one is loaded first and the older one after it - each has to report the titles of its own workbook
     if book.cls is not None and book.whole is not None and book.whole.ok and not far:
